@@ -217,7 +217,19 @@ class Exerciser:
         # ---------------- direction B: from bytes (harness-built), and from bumble's own bytes if they differ
         inputs = [("B", harness, "y")]
         if data is not None and data != harness:
-            inputs.append(("A", data, "any"))
+            hl = len(harness) - len(vec.params)
+            try:
+                framed = frame_bytes(case.frame, hdr, bytes(data[hl:])) == bytes(data)
+            except (ValueError, IndexError):
+                framed = False
+            if framed:
+                inputs.append(("A", data, "any"))
+            else:
+                # bumble's own bytes do not carry the header of the class that produced them: the ser event above is
+                # rejected by the trace spec (bytes); feeding them to the parse side would only trip the spec's
+                # harness-consistency guard, so the packet-kind clause is reported here
+                self._viol(case, "ser-frame", f"{case.family}:{case.name}",
+                           f"{case.name}: serialises to {bytes(data).hex()[:120]}, which does not carry the header {list(hdr)} of frame '{case.frame}' it is registered under", vec, {"bytes": bytes(data).hex()})
         for d, raw, wf in inputs:
             self._parse_side(case, vec, raw, wf, kinds, meta, d, hdr)
 
@@ -284,6 +296,13 @@ class Exerciser:
             cls = meta.get("cls", "?")
             fam = meta.get("family", "?")
             for w in why:
+                if str(w).startswith("opaque:"):
+                    opq = [l for l in labels if "opq" in l] or ["opq"]
+                    self.rep.violation(f"{ns}:opaque-codec:{cls}", f"{cls} ({fam}, vector {meta.get('tag')}, direction {meta.get('dir')}): the serialiser and parser of an "
+                                       f"opaque field ({', '.join(opq)}) disagree on its extent ({w[7:]}): bytes {cc.hexs(ev['bytes'])[:160]}",
+                                       {"part": "event", "ns": ns, "family": fam, "cls": cls, "tag": meta.get("tag"), "why": w,
+                                        "event": {k: v for k, v in ev.items() if k != "_meta"}})
+                    continue
                 what, detail = self._locate(ev, w, want, labels)
                 generic = (what.split("(")[0] in cc.INT_RANGE or what.split("(")[0] in ("arr", "v", "star", "lim", "limbe", "grp", "frame", "psm")) \
                     and not str(fam).startswith("unknown")
